@@ -30,6 +30,7 @@ AbsInt(x) == IF x < 0 THEN -x ELSE x
 GoJudge(hist, p, EV, sm, d, plain, rp, got, child, line, lo, hi) ==
   LET v == rp[1]
       deep == Ev.mode = "deeprep"
+      free == Ev.mode = "free"          \* no reference value for this search: only what holds for every search is demanded
       gotv == IF got.kind = "cp" THEN (IF Ch(got.v, 1) = "-" THEN -ParseNat(SubSeq(got.v, 2, Len(got.v))) ELSE ParseNat(got.v)) ELSE 0
       missing == AbsInt(v) > 1200000
       exp == ToUciScore(v)
@@ -44,7 +45,7 @@ GoJudge(hist, p, EV, sm, d, plain, rp, got, child, line, lo, hi) ==
             <<Ev.st = "ok", "C07", "no bestmove for go depth " \o ToString(d), "bestmove">>,
             <<Legal(p) = {} => (Ev.best = "none" /\ got.kind = "none"), "C07", "a move-less root must be answered with the null move and no score", "none">>,
             <<terminal \/ Ev.depth_seen = d, Prop, "last scored info has depth " \o ToString(Ev.depth_seen), ToString(d)>>,
-            <<~missing \/ isRep \/ deep, Prop, "a position of the legal depth-" \o ToString(d) \o " tree (with capture resolution) was not visited by the implementation's own tree walk",
+            <<~missing \/ isRep \/ deep \/ free, Prop, "a position of the legal depth-" \o ToString(d) \o " tree (with capture resolution) was not visited by the implementation's own tree walk",
               IF missing /\ ~isRep THEN ToString(Keys(p, d) \ EV.d) ELSE "">>,
             <<isRep => repOk, "C10", "line reaching a threefold repetition must be scored as a draw (+- contempt " \o ToString(c) \o "): " \o ScoreStr(got),
               "cp " \o ToString(c)>>,
@@ -52,9 +53,9 @@ GoJudge(hist, p, EV, sm, d, plain, rp, got, child, line, lo, hi) ==
             <<(deep /\ lo) => ((got.kind = "mate" /\ Ch(got.v, 1) # "-") \/ (got.kind = "cp" /\ gotv >= -c)), "C10",
               "the side to move can force a threefold repetition within the searched depth (every reply on the cycle is forced), yet go depth " \o ToString(d) \o
               " scores " \o ScoreStr(got) \o ": the repeating line was not valued as a draw", "at least cp " \o ToString(-c)>>,
-            <<(~deep /\ ~isRep /\ ~missing /\ ~terminal) => got = exp, IF Ev.mode \in {"rep", "fifty"} THEN "C10" ELSE Prop,
+            <<(~deep /\ ~free /\ ~isRep /\ ~missing /\ ~terminal) => got = exp, IF Ev.mode \in {"rep", "fifty"} THEN "C10" ELSE Prop,
               "score " \o ScoreStr(got) \o " of go depth " \o ToString(d) \o " on " \o RenderFen(p) \o " differs from the minimax value", ScoreStr(exp)>>,
-            <<(~deep /\ ~isRep /\ ~missing /\ ~terminal /\ got = exp) => (IF plain THEN Ev.best \in rp[2] ELSE AttainsAB(EV, p, d, Ev.best, v)), Prop,
+            <<(~deep /\ ~free /\ ~isRep /\ ~missing /\ ~terminal /\ got = exp) => (IF plain THEN Ev.best \in rp[2] ELSE AttainsAB(EV, p, d, Ev.best, v)), Prop,
               "bestmove " \o Ev.best \o " does not attain the minimax value " \o ScoreStr(exp), IF plain THEN ToString(rp[2]) ELSE "">>,
             <<Len(line) = Len(Ev.pv) + 1 /\ (Ev.pv # <<>> => Ev.pv[1] = Ev.best), Prop, "principal variation is not a legal line starting with the best move: " \o ToString(Ev.pv), "">>,
             <<mateN > 0 => (Len(Ev.pv) = 2 * mateN - 1 /\ Len(line) = Len(Ev.pv) + 1 /\ IsMate(line[Len(line)])), Prop,
@@ -76,8 +77,9 @@ GoWith(hist, EV) ==
       sm == ToS(Ev.searchmoves)
       plain == Ev.ref # "ab"
       deep == Ev.mode = "deeprep"
+      noref == Ev.mode \in {"deeprep", "free"}
   IN GoJudge(hist, p, EV, sm, Ev.d, plain,
-             IF deep THEN <<0, {}>> ELSE IF plain THEN RootPlain(EV, p, Ev.d, sm) ELSE <<RootAB(EV, p, Ev.d, sm), {}>>,
+             IF noref THEN <<0, {}>> ELSE IF plain THEN RootPlain(EV, p, Ev.d, sm) ELSE <<RootAB(EV, p, Ev.d, sm), {}>>,
              [kind |-> Ev.score.kind, v |-> Ev.score.v],
              IF Len(Ev.searchmoves) = 1 THEN Positions(p, Ev.searchmoves, 1) ELSE <<p>>,
              Positions(p, Ev.pv, 1),
@@ -132,12 +134,60 @@ Reps ==
         /\ ntr' = ntr \cup {l}
   /\ UNCHANGED <<prevGo, prevEval>>
 
+(***************************************************************************)
+(* The transposition-table decisions of one search (hook H6), in order,    *)
+(* against the rules of TTRule.tla (the ones ABTT.tla model-checks).       *)
+(* row = <<kind, key, draft, a0, b0, alpha, beta, e_depth, e_value,        *)
+(*         e_type, e_mv_value, outcome, best>>                             *)
+(***************************************************************************)
+TR == INSTANCE TTRule
+TypeName(c) == IF c = 0 THEN "exact" ELSE IF c = 1 THEN "lower" ELSE IF c = 2 THEN "upper" ELSE "?"
+RetName(c) == IF c = 0 THEN "on" ELSE IF c = 1 THEN "exact" ELSE IF c = 2 THEN "cut" ELSE "?"
+\* the engine's mate scores: beyond 2^24 - 2^20 (never stored: they are absolute, a table value must not be)
+MateScore(v) == v > 15728640 \/ v < -15728640
+ProbeOk(r) ==
+  LET pr == TR!Probe("none", TypeName(r[10]), r[8], r[9], r[3], r[4], r[5])
+  IN /\ RetName(r[12]) = pr.ret
+     /\ r[6] = pr.alpha /\ r[7] = pr.beta
+     /\ r[11] = r[9]                   \* the move handed back carries the entry's value
+StoreOk(r) == /\ TypeName(r[10]) = TR!StoreType("none", r[13], r[4], r[6], r[7])
+              /\ ~MateScore(r[13])
+SkipOk(r) == MateScore(r[13])
+\* a found entry is the last one stored under its key in this search (the table is emptied when a search starts)
+FromLastStore(rows, i) ==
+  LET S == {j \in 1 .. i - 1 : rows[j][1] = 2 /\ rows[j][2] = rows[i][2]}
+  IN /\ S # {}
+     /\ LET j == CHOOSE j \in S : \A k \in S : k <= j
+        IN rows[j][3] = rows[i][8] /\ rows[j][13] = rows[i][9] /\ rows[j][10] = rows[i][10]
+TtJudge(rows, n) ==
+  LET probes == {i \in 1 .. n : rows[i][1] = 1}
+      stores == {i \in 1 .. n : rows[i][1] = 2}
+      skips == {i \in 1 .. n : rows[i][1] = 3}
+      badP == {i \in probes : ~ProbeOk(rows[i])}
+      badS == {i \in stores : ~StoreOk(rows[i])}
+      badK == {i \in skips : ~SkipOk(rows[i])}
+      badL == IF n <= 2000 THEN {i \in probes : ~FromLastStore(rows, i)} ELSE {}
+      first(S) == IF S = {} THEN "" ELSE ToString(rows[CHOOSE i \in S : \A j \in S : i <= j])
+  IN /\ Record(
+         << <<probes \cup stores \cup skips = 1 .. n, "C08", "machinery: unknown kind of table decision", "">>,
+            <<badP = {}, "C08", "a found table entry was not used as the design says (usable iff its draft suffices; exact: return it; lower: raise alpha; upper: lower beta; "
+                \o "empty window: return it): " \o first(badP), IF badP = {} THEN "" ELSE ToString(TR!Probe("none", TypeName(rows[CHOOSE i \in badP : TRUE][10]), rows[CHOOSE i \in badP : TRUE][8], rows[CHOOSE i \in badP : TRUE][9], rows[CHOOSE i \in badP : TRUE][3], rows[CHOOSE i \in badP : TRUE][4], rows[CHOOSE i \in badP : TRUE][5]))>>,
+            <<badS = {}, "C08", "a node's result was stored under the wrong type (upper bound iff it does not exceed the alpha the node was entered with, lower bound iff it reaches beta, "
+                \o "else exact; mate scores are not stored): " \o first(badS), "">>,
+            <<badK = {}, "C08", "a result that is not a mate score was not stored: " \o first(badK), "">>,
+            <<badL = {}, "C08", "a found table entry is not the one last stored under its key in this search: " \o first(badL), "">> >>)
+     /\ ntr' = IF stores # {} THEN ntr \cup {l} ELSE ntr
+TtLog ==
+  /\ Ev.ev = "ttlog"
+  /\ TtJudge(Ev.rows, Len(Ev.rows))
+  /\ UNCHANGED <<prevGo, prevEval>>
+
 Panic ==
   /\ Ev.ev = "panic"
   /\ Record(<< <<FALSE, Ev.p, "panic during " \o Ev.during \o ": " \o Ev.msg, "no panic">> >>)
   /\ UNCHANGED <<prevGo, prevEval, ntr>>
 
-Next == l <= Len(Rec) /\ l' = l + 1 /\ (GoDepth \/ Skipped \/ Eval \/ Reps \/ Panic)
+Next == l <= Len(Rec) /\ l' = l + 1 /\ (GoDepth \/ TtLog \/ Skipped \/ Eval \/ Reps \/ Panic)
 Init == /\ l = 1 /\ bad = <<>> /\ nbad = 0 /\ ntr = {}
         /\ prevGo = [fen |-> "", score |-> [kind |-> "none", v |-> "0"]]
         /\ prevEval = [fen |-> "8/8/8/8/8/8/8/8 w - - 0 1", ongoing |-> 0, terminal |-> 0]
